@@ -427,9 +427,9 @@ func TestVerif_C34_Redelivery(t *testing.T) {
 		n, c   uint32
 		budget int // extra deliveries to node X
 	}
-	worlds := []wc{{4, 1, 2}, {5, 1, 2}, {6, 1, 2}, {7, 2, 2}}
+	worlds := []wc{{4, 1, 2}, {5, 1, 2}, {6, 1, 2}, {7, 2, 1}}
 	if r.Thorough() {
-		worlds = []wc{{4, 1, 3}, {5, 1, 3}, {6, 1, 3}, {7, 2, 3}, {7, 1, 2}, {8, 2, 1}}
+		worlds = []wc{{4, 1, 3}, {5, 1, 3}, {6, 1, 3}, {7, 2, 2}, {7, 1, 2}, {8, 2, 1}}
 	}
 	var rc c34rCase
 	if r.IsReplay() {
